@@ -270,6 +270,28 @@ MANDATORY = {
     'C11': [
         ('dedupe::log_script::{closure#0}', r'PriorityQueue.*::push$', 0, 'queueing a received group', (), (r'Receiver.*::recv$',)),
     ],
+    'C01': [
+        ('group::group_by_prefix', r'group::rehash$', 0, 'the prefix stage regrouping', (), ()),
+        ('group::group_by_suffix', r'group::rehash$', 0, 'the suffix stage regrouping', (), ()),
+        ('group::group_by_contents', r'group::rehash$', 0, 'the contents stage regrouping', (), ()),
+        ('group::group_by_prefix::{closure#3}', r'hash_file_or_log_err$', 0, 'hashing the prefix of every file handed to the stage', (), ()),
+        ('group::group_by_contents::{closure#3}', r'hash_file_or_log_err$', 0, 'hashing the contents of every file handed to the stage', (), ()),
+        ('hasher::file_hash', r'hasher::stream_hash$', 0, 'hashing the opened chunk', (), ()),
+        ('hasher::stream_hash', r'hasher::scan$', 0, 'reading the stream', (), ()),
+        ("hasher::FileHasher::<'_>::hash_file_or_log_err", r'::hash_file$', 0, 'computing the hash', (), ()),
+    ],
+    'C05': [
+        ('dedupe::FsCommand::execute', r'FsCommand::safe_remove$', None, 'the safe replacement of the file by a link', (), (r'&dedupe::FsCommand$',)),
+        ('dedupe::FsCommand::execute', r'reflink::reflink$', 0, 'the reflink replacement', (), (r'&dedupe::FsCommand$',)),
+        ('dedupe::FsCommand::execute', r'FsCommand::move_copy$', 0, 'the copy fall-back of move', (), (r'&dedupe::FsCommand$', r'Result.*::is_ok$')),
+    ],
+    'C07': [
+        ('transform::Transform::run', r'Transform::make_args$', 0, 'building the argument vector', (), ()),
+        ('transform::build_command', r'Input::prepare_input_file$', 0, 'preparing the private input copy before the program is started', (), ()),
+    ],
+    'C04': [
+        ('bin::run_dedupe', r'(^|::)dedupe::dedupe$|^fclones::dedupe$', 0, 'generating the script from the (validated) report', (), (r'Option.*::is_none$',)),
+    ],
     'C15': [
         ("walk::Walk::<'a>::visit_dir", r"Walk::<'a>::log_warn$", 0, 'the warning for an unreadable directory', (), None),
     ],
@@ -281,7 +303,7 @@ def run_mandatory(ctx, prop):
     lib = ctx.lib
     n = 0
     for (fn, rx, occ, what, fields, calls) in MANDATORY.get(prop, []):
-        b = lib.body(fn)
+        b = (ctx.bin.body(fn[5:]) if fn.startswith('bin::') and ctx.bin else lib.body(fn))
         if b is None:
             ctx.missing(rule, 'fn ' + fn)
             continue
